@@ -33,17 +33,39 @@ def build_labelled_mdp(case):
     alab = [lab(x) for x in (case.get("action_labels") or list(range(m["nA"])))]
     slab = [lab(x) for x in (case.get("state_labels") or list(range(m["n"])))]
     perm = case.get("action_perm") or [list(a) for a in m["actions"]]
-    cont = {"tuple": tuple, "list": list, "frozenset": frozenset}[case.get("actions_container", "tuple")]
-    trans, rew = {}, {}
+    cont = {"tuple": tuple, "list": list, "frozenset": frozenset, "shared-list": list}[case.get("actions_container", "tuple")]
+    ntype = case.get("number_type", "float")
+
+    def nv(x):
+        """a generator number as handed to msdm: float, or (when exactly representable) int / numpy float32"""
+        import numpy as np
+        f = fl(x)
+        if ntype == "int" and float(int(f)) == f:
+            return int(f)
+        if ntype == "float32" and float(np.float32(f)) == f:
+            return np.float32(f)
+        return f
+
+    trans, rew, shared = {}, {}, {}
     for k, row in m["trans"].items():
         s, a = map(int, k.split(","))
-        trans[(slab[s], alab[a])] = DictDistribution({slab[ns]: fl(p) for ns, p in row})
+        if case.get("shared_distributions"):
+            key = repr(row)               # identical rows are served by ONE DictDistribution object
+            if key not in shared:
+                shared[key] = DictDistribution({slab[ns]: nv(p) for ns, p in row})
+            trans[(slab[s], alab[a])] = shared[key]
+        else:
+            trans[(slab[s], alab[a])] = DictDistribution({slab[ns]: nv(p) for ns, p in row})
     for k, r in m["reward"].items():
         s, a, ns = map(int, k.split(","))
-        rew[(slab[s], alab[a], slab[ns])] = fl(r)
-    actions = {slab[s]: cont(alab[a] for a in perm[s]) for s in range(m["n"])}
+        rew[(slab[s], alab[a], slab[ns])] = nv(r)
+    if case.get("actions_container") == "shared-list":
+        lists = {}                        # ONE list object per distinct order, for every state using it
+        actions = {slab[s]: lists.setdefault(tuple(perm[s]), [alab[a] for a in perm[s]]) for s in range(m["n"])}
+    else:
+        actions = {slab[s]: cont(alab[a] for a in perm[s]) for s in range(m["n"])}
     absorbing = {slab[s]: bool(m["absorbing"][s]) for s in range(m["n"])}
-    init = DictDistribution({slab[s]: fl(p) for s, p in m["init"]})
+    init = DictDistribution({slab[s]: nv(p) for s, p in m["init"]})
     mdp = QuickTabularMDP(
         next_state_dist=lambda s, a: trans[(s, a)],
         reward=lambda s, a, ns: rew.get((s, a, ns), 0.0),
@@ -56,6 +78,15 @@ def build_labelled_mdp(case):
     if ex:
         mdp._state_list = tuple(slab[s] for s in ex["states"])
         mdp._action_list = tuple(alab[a] for a in ex["actions"])
+
+    def snapshot():
+        """the caller's objects msdm is handed, by value"""
+        return {"actions": {repr(k): repr(list(v) if not isinstance(v, frozenset) else sorted(v, key=repr)) for k, v in actions.items()},
+                "transitions": {repr(k): repr(sorted(((repr(x), float(pp)) for x, pp in v.items()))) for k, v in trans.items()},
+                "rewards": {repr(k): float(v) for k, v in rew.items()},
+                "init": repr(sorted((repr(x), float(pp)) for x, pp in init.items())),
+                "absorbing": {repr(k): v for k, v in absorbing.items()}}
+    mdp._c17_snapshot = snapshot
     return mdp, slab, alab
 
 
@@ -71,7 +102,10 @@ def collect(learner, view, mdp_parts=None, policy_when="before"):
     aidx = {a: i for i, a in enumerate(al)}                   # label -> position in action_list
     state_id = {x: i for i, x in enumerate(slab)}             # label -> generator state id
     label_id = {x: i for i, x in enumerate(alab)}             # label -> generator action id
+    before = mdp._c17_snapshot()
     res = learner.train_on(mdp)
+    after = mdp._c17_snapshot()
+    mutated = [k for k in before if before[k] != after[k]]
     episodes = [{"steps": [[sidx[s], aidx[a], fj(r), sidx[ns], int(ai)] for (s, a, r, ns, ai) in ep["steps"]],
                  "end": sidx[ep["end"]]} for ep in res.event_listener_results]
     q = res.q_values
@@ -101,6 +135,7 @@ def collect(learner, view, mdp_parts=None, policy_when="before"):
         "q_matrix": [[fj(x) for x in row] for row in learner.q_matrix.tolist()],
         "n_states": int(learner.n_states), "n_actions": int(learner.n_actions),
         "max_reward_matrix": fj(float(np.max(mdp.reward_matrix))),
+        "caller_objects_mutated": mutated,
     }
 
     def late_read(after_later_training):
@@ -112,6 +147,8 @@ def collect(learner, view, mdp_parts=None, policy_when="before"):
         out["pi_same_on_second_query"] = pi == pi_again
         out["pi_early_equals_late"] = all(pi[i] == row for i, row in pi_early.items())
         out["pi_outside"] = read_policy(outside)
+        final = mdp._c17_snapshot()                           # ... and after the result has been queried
+        out["caller_objects_mutated"] = sorted(set(out["caller_objects_mutated"]) | {k for k in before if before[k] != final[k]})
         if after_later_training:
             out["Q_late"] = read_q()
             out["policy_read"] = policy_when
@@ -158,7 +195,9 @@ def one(case, pl):
     out, parts, late_read = collect(learner, case, policy_when=when)
     if case.get("default_listener_rerun") and case["seed"] is not None:
         # a second, fresh object of the class with the DEFAULT listener, on the already-used MDP object
-        r2 = make().train_on(parts[0])
+        #   or on the same problem constructed a second time (class-/module-level caches)
+        rerun_mdp = build_labelled_mdp(case)[0] if case.get("rerun_fresh_mdp") else parts[0]
+        r2 = make().train_on(rerun_mdp)
         sl = list(parts[0].state_list)
         al = list(parts[0].action_list)
         out["rerun"] = {"episode_rewards": [fj(x) for x in r2.event_listener_results.episode_rewards],
